@@ -309,6 +309,22 @@ fn inputs(ctx: &Ctx, rng: &mut Rng, scale: usize, mut f: impl FnMut(bool, &[u8],
             }
         }
     }
+    // (iii') Content-Length lines that are individually or jointly invalid, in both orders, and long field lines
+    for (a, b2) in [("5", "abc"), ("abc", "5"), ("5", ""), ("5", "99999999999999999999999"), ("5", "6"), ("5", "5"), ("5", "+5"), ("5", "5 5"), ("007", "7")] {
+        for te in ["", "Transfer-Encoding: chunked\r\n"] {
+            let h = format!("POST /x HTTP/1.1\r\n{te}Content-Length: {a}\r\nX: y\r\ncontent-length:{b2}\r\n\r\n");
+            f(true, h.as_bytes(), "content-length-pair");
+            let h2 = format!("POST /x HTTP/1.1\r\nContent-Length: {a}\r\n{te}content-length:{b2}\r\n\r\n");
+            f(true, h2.as_bytes(), "content-length-pair");
+        }
+    }
+    if scale <= 700 {
+        // (only in the every-prefix stream: each costs thousands of parses) a field line longer than 2 KiB / 3 KiB
+        for vl in [2100usize, 3000] {
+            let h = format!("GET /long HTTP/1.1\r\nCookie: {}\r\nHost: x\r\n\r\n", "c".repeat(vl));
+            f(true, h.as_bytes(), "long-field-line");
+        }
+    }
     // (iv) raw random strings
     for _ in 0..n / 2 {
         let l = rng.below(60) as usize;
@@ -333,7 +349,7 @@ pub fn gen_parse(ctx: &Ctx) {
     let marker = Marker::new(&ctx.dir, "parse");
     inputs(ctx, &mut rng, 6000, |is_req, b, class| {
         let case = format!("{}{}", if is_req { 'Q' } else { 'S' }, hex(b));
-        marker.set(&case);
+        marker.set(&case); crate::util::note_current(&case);
         let r = both(&g, is_req, b);
         let cl = classify(&r);
         out.emit(&case, &r, &format!("{class}/{cl}"), cl == "accepted");
@@ -354,7 +370,7 @@ fn gen_prefix_named(ctx: &Ctx, name: &str, scale: usize) {
     let marker = Marker::new(&ctx.dir, name);
     inputs(ctx, &mut rng, if ctx.thorough && scale > 700 { scale / 4 } else { scale }, |is_req, b, class| {
         let case = format!("{}{}", if is_req { 'Q' } else { 'S' }, hex(b));
-        marker.set(&case);
+        marker.set(&case); crate::util::note_current(&case);
         let r = verdicts(&g, is_req, b);
         let nt = r.contains('I') && (r.contains('A') || r.contains('R'));
         let last = r.chars().rev().find(|c| "IRAX".contains(*c)).unwrap_or('?');
@@ -387,6 +403,23 @@ pub fn gen_grammar(ctx: &Ctx) {
         let r = both(&g, true, &b);
         let tf = enc.split(' ').nth(1).unwrap().chars().next().unwrap();
         out.emit(&case, &r, &format!("target-{tf}/{}", classify(&r)), true);
+    }
+    // targets whose path / query / authority end beyond offset 2^16 (offsets are usize, not 16-bit quantities)
+    for (plen, qlen) in [(65520usize, 0usize), (65531, 10), (65536, 0), (65540, 3), (70000, 70000), (10, 66000)] {
+        let path: Vec<u8> = std::iter::once(b'/').chain((0..plen).map(|i| b'a' + (i % 26) as u8)).collect();
+        let query: Vec<u8> = (0..qlen).map(|i| b'q' + (i % 3) as u8).collect();
+        for abs in [false, true] {
+            let mut t = if abs { b"http://host.example".to_vec() } else { vec![] };
+            t.extend(&path);
+            if qlen > 0 { t.push(b'?'); t.extend(&query); }
+            let tenc = if abs { format!("A,{},{},{},{}", hex(b"http"), hex(b"host.example"), hex(&path), if qlen > 0 { hex(&query) } else { "none".into() }) }
+                       else { format!("O,{},{}", hex(&path), if qlen > 0 { hex(&query) } else { "none".into() }) };
+            let mut b = b"GET ".to_vec(); b.extend(&t); b.extend(b" HTTP/1.1\r\nHost: x\r\n\r\n");
+            let enc = format!("{} {} 1 [{}:{}:{}]", hex(b"GET"), tenc, hex(b"Host"), hex(b" "), hex(b"x"));
+            let case = format!("{} {} {}", enc, hex(b""), hex(&b));
+            let r = both(&g, true, &b);
+            out.emit(&case, &r, &format!("huge-target/{}", classify(&r)), true);
+        }
     }
     out.finish();
 }
